@@ -44,3 +44,200 @@ def MacState.fcntUp? (m : MacState) : Option Nat :=
   | _ => none
 
 end Model
+
+/-! ## the async front-end (`async_device/mod.rs`) as a trace of radio/timer calls
+
+The harness' scripted radio answers the k-th radio call of an operation with the k-th script item
+(`ok` when the script is exhausted); the timer fires as soon as it is awaited, so that a pending
+`rx_continuous` loses the `select` against it. -/
+namespace Model
+
+inductive ScriptItem where
+  | ok
+  | err
+  | frame (snr : Int) (v : RxView)
+  deriving DecidableEq, Repr
+
+structure DevCfg where
+  /-- `Timings::get_rx_window_lead_time_ms` -/
+  lead : Nat
+  /-- `Timings::get_rx_window_buffer` -/
+  buffer : Nat
+  classC : Bool
+  /-- the time on air the radio reports from `tx` -/
+  txMs : Nat
+  deriving DecidableEq, Repr
+
+inductive Call where
+  | tx (t : TxOut) (len : Nat)
+  | reset
+  | at (ms : Nat)
+  | lowPower
+  | setupRx (rf : RfConfig) (singleMs : Option Nat)
+  | rxSingle
+  | rxContinuous
+  deriving DecidableEq, Repr
+
+inductive DevResult where
+  | ok (r : Response)
+  | errRadio
+  | errMac
+  deriving DecidableEq, Repr
+
+structure DevRun where
+  m : MacState
+  script : List ScriptItem
+  calls : List Call        -- most recent first
+  downlinks : List (Nat × List Nat)
+  deriving Repr
+
+def DevRun.next (r : DevRun) : ScriptItem × DevRun :=
+  match r.script with
+  | [] => (.ok, r)
+  | i :: rest => (i, { r with script := rest })
+
+def DevRun.log (r : DevRun) (c : Call) : DevRun := { r with calls := c :: r.calls }
+
+/-- how a sub-procedure of an operation ends -/
+inductive Step (α : Type) where
+  | cont (a : α) (r : DevRun)
+  | radioErr (r : DevRun)
+  | macErr (r : DevRun)
+
+/-- a radio call that only succeeds or fails -/
+def DevRun.simpleCall (r : DevRun) (c : Call) : Step Unit :=
+  let (i, r) := (r.log c).next
+  match i with
+  | .err => .radioErr r
+  | _ => .cont () r
+
+/-- `handle_mac_response`: `NoUpdate` is swallowed -/
+def swallow (o : Option RxOut) : Option RxOut :=
+  match o with
+  | some o => if o.resp == .noUpdate then none else some o
+  | none => none
+
+def DevRun.deliver (r : DevRun) (o : Option RxOut) : DevRun :=
+  match o with
+  | some o => (match o.downlink with | some d => { r with downlinks := d :: r.downlinks } | none => r)
+  | none => r
+
+/-- `window_complete` -/
+def windowComplete (cfg : DevCfg) (r : DevRun) : M (Step Unit) := do
+  if cfg.classC then
+    let rf ← macRxcConfig r.m
+    pure (r.simpleCall (.setupRx rf none))
+  else pure (r.simpleCall .lowPower)
+
+/-- the Class C listening loop of `between_windows`: frames until the timer wins -/
+def rxcLoop (mp duration : Nat) : Nat → DevRun → M (Step Unit)
+  | 0, _ => hang "between_windows"
+  | fuel + 1, r =>
+    let (i, r) := (r.log .rxContinuous).next
+    match i with
+    | .frame snr v => do
+      let (o, m) ← macHandleRx r.m v mp snr true
+      let r := { r with m := m }
+      match o with
+      | none => pure (.macErr r)       -- `handle_rxc` returned Err(NotJoined)
+      | some o => rxcLoop mp duration fuel (r.deliver (some o))
+    -- the timer future is first polled once reception is pending (or has failed: the error is
+    -- swallowed, the code awaits the timer and reports a timeout)
+    | .err => pure (.cont () (r.log (.at duration)))
+    | .ok => pure (.cont () (r.log (.at duration)))
+
+/-- `between_windows(duration)` -/
+def betweenWindows (cfg : DevCfg) (duration : Nat) (r : DevRun) : M (Step Unit) := do
+  if cfg.classC then
+    let rf ← macRxcConfig r.m
+    match r.simpleCall (.setupRx rf none) with
+    | .cont _ r => rxcLoop rf.maxPayload.toNat duration 64 r
+    | e => pure e
+  else
+    match r.simpleCall .lowPower with
+    | .cont _ r => pure (.cont () (r.log (.at duration)))
+    | e => pure e
+
+/-- `rx_listen` -/
+def rxListen (cfg : DevCfg) (rf : RfConfig) (r : DevRun) : M (Step (Option RxOut)) := do
+  let (i, r) := (r.log .rxSingle).next
+  match i with
+  | .err => pure (.radioErr r)
+  | .ok =>
+    match (← windowComplete cfg r) with
+    | .cont _ r => pure (.cont none r)
+    | .radioErr r => pure (.radioErr r)
+    | .macErr r => pure (.macErr r)
+  | .frame snr v =>
+    let (o, m) ← macHandleRx r.m v rf.maxPayload.toNat snr false
+    let r := ({ r with m := m }).deliver o
+    match (← windowComplete cfg r) with
+    | .cont _ r => pure (.cont (swallow o) r)
+    | .radioErr r => pure (.radioErr r)
+    | .macErr r => pure (.macErr r)
+
+/-- `u32` arithmetic `delay + tx_ms - lead` -/
+def startDelay (delay txMs lead : Nat) : M Nat :=
+  if delay + txMs > 4294967295 then panic "rx start delay overflow"
+  else if lead > delay + txMs then panic "rx start delay underflow"
+  else pure (delay + txMs - lead)
+
+def oneWindow (cfg : DevCfg) (join second : Bool) (rf : RfConfig) (r : DevRun) : M (Step (Option RxOut)) := do
+  let d ← startDelay (macRxDelay r.m join second) cfg.txMs cfg.lead
+  match (← betweenWindows cfg d r) with
+  | .radioErr r => pure (.radioErr r)
+  | .macErr r => pure (.macErr r)
+  | .cont _ r =>
+    match r.simpleCall (.setupRx rf (some cfg.buffer)) with
+    | .radioErr r => pure (.radioErr r)
+    | .macErr r => pure (.macErr r)
+    | .cont _ r => rxListen cfg rf r
+
+/-- `rx_downlink` -/
+def rxDownlink (cfg : DevCfg) (join : Bool) (tx : TxOut) (r : DevRun) : M (Step Response) := do
+  match (← oneWindow cfg join false tx.rx1 r) with
+  | .radioErr r => pure (.radioErr r)
+  | .macErr r => pure (.macErr r)
+  | .cont (some o) r => pure (.cont o.resp r)
+  | .cont none r =>
+    match (← oneWindow cfg join true tx.rx2 r) with
+    | .radioErr r => pure (.radioErr r)
+    | .macErr r => pure (.macErr r)
+    | .cont (some o) r => pure (.cont o.resp r)
+    | .cont none r =>
+      let (resp, m) := macRx2Complete r.m
+      pure (.cont resp { r with m := m })
+
+def frameLen (u : UplinkDesc) : Nat := 1 + 7 + u.fopts.length + 1 + u.payload.length + 4
+
+/-- `Device::send`: after the frame has been handed to the radio every error path burns the counter -/
+def asyncSend {σ} (g : Rng σ) (cfg : DevCfg) (r : DevRun) (data : List Nat) (port : Nat) (conf : Bool) (rs : σ) :
+    M (DevResult × DevRun × σ) := do
+  let (o, m, rs) ← macSend g r.m data port conf rs
+  let r := { r with m := m }
+  match o with
+  | none => pure (.errMac, r, rs)
+  | some out =>
+    match r.simpleCall (.tx out.tx (frameLen out.frame)) with
+    | .radioErr r => pure (.errRadio, { r with m := faultAfterTx r.m }, rs)
+    | .macErr r => pure (.errMac, r, rs)
+    | .cont _ r =>
+      match (← rxDownlink cfg false out.tx (r.log .reset)) with
+      | .cont resp r => pure (.ok resp, r, rs)
+      | .radioErr r => pure (.errRadio, { r with m := faultAfterTx r.m }, rs)
+      | .macErr r => pure (.errMac, { r with m := faultAfterTx r.m }, rs)
+
+/-- `Device::join` (OTAA) -/
+def asyncJoin {σ} (g : Rng σ) (cfg : DevCfg) (r : DevRun) (rs : σ) : M (DevResult × DevRun × σ) := do
+  let (out, m, rs) ← macJoinOtaa g r.m rs
+  let r := { r with m := m }
+  match r.simpleCall (.tx out.tx 23) with
+  | .radioErr r => pure (.errRadio, r, rs)
+  | .macErr r => pure (.errMac, r, rs)
+  | .cont _ r =>
+    match (← rxDownlink cfg true out.tx (r.log .reset)) with
+    | .cont resp r => pure (.ok resp, r, rs)
+    | .radioErr r => pure (.errRadio, r, rs)
+    | .macErr r => pure (.errMac, r, rs)
+
+end Model
